@@ -45,6 +45,12 @@ def impl(line):
     return impl_lift_op(line)
 
 
+def lean_line(line):
+    """` @r`: the same hierarchy written in the REF style (each level's location on the next one carries a light
+    reference - id and type - to that level, as `seq_chunk_to_parent` writes it); implementation side only"""
+    return line[:-3] if line.endswith(" @r") else line
+
+
 def decoys(line):
     """property-specific decoys (engine: harness/decoy.py): the same levels in a hierarchy without its top level and in
     one with an extra level on top, played before the real line in the same process"""
@@ -237,7 +243,12 @@ def relocate_cases(run):
 
 
 def cases(run):
-    yield from base_cases(run)
+    for ln in base_cases(run):
+        yield ln
+        # REF-style twin of hierarchies with at least two levels
+        if ln.startswith(("lifttype ", "liftseq ")) and " L1 " in ln and run.rng.random() < 0.15:
+            run.count("ref-style-twin")
+            yield ln + " @r"
     yield from relocate_cases(run)
 
 
